@@ -155,7 +155,7 @@ def run(run, replay_desc=None):
         else:
             trees = [nets.rand_tree(rng, net.N) for _ in range(6 if quick else 25)]
         for tr in trees:
-            cases += cases_for(run, ct, rng, net, tr, n_subsets=(5 if quick else 12),
+            cases += cases_for(run, ct, rng, net, tr, n_subsets=(8 if quick else 12),
                                with_exec=(rng.random() < (0.5 if quick else 0.6)))
     _judge(run, cases)
     run.cov["rule"] = ("networks from own generator (all index kinds) x all binary trees for small N "
